@@ -228,6 +228,24 @@ def _canon_continue(tree):
                     break
 
 
+def _canon_not_else(tree):
+    """E0 normalisation:  `if not c: A else: B`  is stored as  `if c: B else: A`  (a two-way decision has one spelling; elif chains untouched)."""
+    elifs = set()
+    for n in ast.walk(tree):
+        if isinstance(n, ast.If) and len(n.orelse) == 1 and isinstance(n.orelse[0], ast.If):
+            elifs.add(id(n.orelse[0]))
+    for n in ast.walk(tree):
+        if id(n) in elifs:
+            continue
+        if isinstance(n, ast.If) and n.orelse and isinstance(n.test, ast.UnaryOp) and isinstance(n.test.op, ast.Not) \
+                and not (len(n.orelse) == 1 and isinstance(n.orelse[0], ast.If)) and not (len(n.body) == 1 and isinstance(n.body[0], ast.If) and n.body[0].orelse):
+            n.test = n.test.operand
+            n.body, n.orelse = n.orelse, n.body
+        elif isinstance(n, ast.IfExp) and isinstance(n.test, ast.UnaryOp) and isinstance(n.test.op, ast.Not):
+            n.test = n.test.operand
+            n.body, n.orelse = n.orelse, n.body
+
+
 def _canon_guard_tail(tree):
     """E0 normalisation:   if c: return E ; S ; return E      ==      if not c: S ; return E
     (an early return that duplicates the function's final return, S free of other exits)."""
@@ -433,6 +451,26 @@ def _canon_while(tree):
                     k += 1
 
 
+class _OperatorCalls(ast.NodeTransformer):
+    """E0 normalisation: operator.sub(a, b) is a - b (what a parameterised helper taking `operator.add` / `operator.sub` leaves behind once
+    it is inlined)."""
+    BIN = {"add": ast.Add, "sub": ast.Sub, "mul": ast.Mult, "truediv": ast.Div, "floordiv": ast.FloorDiv, "mod": ast.Mod, "pow": ast.Pow,
+           "and_": ast.BitAnd, "or_": ast.BitOr, "xor": ast.BitXor}
+    CMP = {"lt": ast.Lt, "le": ast.LtE, "gt": ast.Gt, "ge": ast.GtE, "eq": ast.Eq, "ne": ast.NotEq}
+
+    def visit_Call(self, n):
+        self.generic_visit(n)
+        f = n.func
+        if isinstance(f, ast.Attribute) and isinstance(f.value, ast.Name) and f.value.id == "operator" and not n.keywords:
+            if f.attr in self.BIN and len(n.args) == 2:
+                return ast.copy_location(ast.BinOp(left=n.args[0], op=self.BIN[f.attr](), right=n.args[1]), n)
+            if f.attr in self.CMP and len(n.args) == 2:
+                return ast.copy_location(ast.Compare(left=n.args[0], ops=[self.CMP[f.attr]()], comparators=[n.args[1]]), n)
+            if f.attr == "neg" and len(n.args) == 1:
+                return ast.copy_location(ast.UnaryOp(op=ast.USub(), operand=n.args[0]), n)
+        return n
+
+
 def _scope_functions(tree, modname):
     """{scope qualname: {function name: number of parameters}} for module level and each class."""
     out = {}
@@ -567,6 +605,7 @@ class Module:
             _canon_loops(self.tree)
         _canon_guard_tail(self.tree)
         _canon_continue(self.tree)
+        _canon_not_else(self.tree)
         self.literals = _module_literals(self.tree)
         if self.literals:
             _InlineLits(self.literals).visit(self.tree)
@@ -693,6 +732,12 @@ class Repo:
                         c._parent = n
         from .inline import inline_new_private_helpers
         self.inlined_calls = inline_new_private_helpers(self)
+        for m_ in self.modules.values():
+            if "operator" in m_.imports:
+                _OperatorCalls().visit(m_.tree)
+                for n_ in ast.walk(m_.tree):
+                    for c_ in ast.iter_child_nodes(n_):
+                        c_._parent = n_
         from .temps import fold_new_temporaries
         self.folded_temps = fold_new_temporaries(self) if os.environ.get("VSA_FOLD_TEMPS", "1") == "1" else 0
         ypath0 = os.path.join(pkgdir, "core", "attributes.yml")
